@@ -46,7 +46,12 @@ def IAsg(c, i, e): return N("iasg", c=c, i=i, e=e)
 def IOpAsg(c, i, op, e): return N("iopasg", c=c, i=i, op=op, e=e)
 def List(xs): return N("list", xs=list(xs))
 def Tuple(xs): return N("tuple", xs=list(xs))
-def Map(ks, vs): return N("map", ks=list(ks), vs=list(vs))
+def Map(ks, vs, mks=(), mvs=()):
+    """mks / mvs: metakeys ("@+", "@r+", "@==", "@type", "@base", "@meta name", ...) and their values"""
+    return N("map", ks=list(ks), vs=list(vs), mks=list(mks), mvs=list(mvs))
+
+
+def Unimpl(): return N("unimpl")
 def Range(a, b, inc=False): return N("range", a=a, b=b, inc=bool(inc))
 def Idx(c, i): return N("idx", c=c, i=i)
 def Dot(c, n): return N("dot", c=c, n=n)
@@ -152,7 +157,7 @@ def children(n):
     if k in ("list", "tuple", "istr", "block", "cmp"):
         return n["xs"]
     if k == "map":
-        return n["vs"]
+        return n["vs"] + n.get("mvs", [])
     if k == "range":
         return [n["a"], n["b"]]
     if k == "idx":
@@ -370,7 +375,11 @@ class Renderer:
                 return "(" + self.paren(xs[0]) + ",)"
             return "(" + ", ".join(self.paren(x) for x in xs) + ")"
         if k == "map":
-            return "{" + ", ".join("%s: %s" % (kk, self.paren(v)) for kk, v in zip(n["ks"], n["vs"])) + "}"
+            ents = ["%s: %s" % (kk, self.paren(v)) for kk, v in zip(n["ks"], n["vs"])]
+            ents += ["%s: %s" % (kk, self.paren(v)) for kk, v in zip(n.get("mks", []), n.get("mvs", []))]
+            return "{" + ", ".join(ents) + "}"
+        if k == "unimpl":
+            return "koto.unimplemented"
         if k == "range":
             return "(%s%s%s)" % (self.paren_strict(n["a"]), "..=" if n["inc"] else "..", self.paren_strict(n["b"]))
         if k == "idx":
